@@ -306,6 +306,7 @@ impl<'a> Machine<'a> {
             Expr::Add(v, k) => self.vars.get(v).map(|x| x + k).ok_or(()),
             Expr::Bad => Err(()),
             Expr::Raw(_, v) => Ok(*v),
+            Expr::BadSyntax(_) => Err(()),
         }
     }
 
@@ -352,7 +353,7 @@ impl<'a> Machine<'a> {
                 self.stat_max_iq = self.stat_max_iq.max(self.iq.len());
                 Ok(())
             }
-            Stmt::SendSelf(e) => {
+            Stmt::SendSelf(e) | Stmt::SendSelfById(e) => {
                 self.xq.push_back(e.clone());
                 Ok(())
             }
@@ -372,7 +373,7 @@ impl<'a> Machine<'a> {
                     }
                 }
             }
-            Stmt::AssignUndeclared => {
+            Stmt::AssignUndeclared | Stmt::AssignBadLocation => {
                 self.error();
                 Err(Abort)
             }
